@@ -47,7 +47,7 @@ var (
 		"billion",
 		"trillion",
 		"quadrillion",
-		"quantillion",
+		"quintillion",
 		"sextillion",
 		"septillion",
 		"octillion",
